@@ -70,6 +70,8 @@ enum St {
   /// scheduler's channel model says the call can return
   BlockedRecv,
   BlockedJoin(Vec<usize>),
+  /// found a lock held by a parked thread: runnable again after any other thread's event
+  BlockedRetry,
   Exited,
 }
 
@@ -94,6 +96,8 @@ pub struct SchedResult {
   pub fired: Vec<Fault>,
   pub discovered: Vec<String>,
   pub recv_empty: u64,
+  pub lock_contention: u64,
+  pub sync_yields: u64,
   pub threads: usize,
   pub notes: Vec<(String, String)>,
 }
@@ -244,7 +248,11 @@ impl Sched {
   }
 
   fn wake_dependents(g: &mut Inner, who: usize) {
-    let _ = who;
+    for (i, t) in g.threads.iter_mut().enumerate() {
+      if i != who && t.st == St::BlockedRetry {
+        t.st = St::Runnable;
+      }
+    }
     // joiners whose children have all exited
     let exited: Vec<bool> = g.threads.iter().map(|t| t.st == St::Exited).collect();
     for t in g.threads.iter_mut() {
@@ -370,6 +378,39 @@ impl Sched {
   }
 }
 
+impl agsim_sync::SyncHooks for Sched {
+  fn participating(&self) -> bool {
+    if Self::me() == usize::MAX {
+      return false;
+    }
+    match self.inner.try_lock() {
+      Ok(g) => g.res.abort.is_none() && !g.finished,
+      // the scheduler's own lock is held by this very thread only inside hook calls
+      Err(_) => true,
+    }
+  }
+  fn yield_point(&self, kind: &str) {
+    SimHooks::yield_point(self, kind, "");
+  }
+  fn block_retry(&self, kind: &str) {
+    let me = Self::me();
+    if me == usize::MAX {
+      return;
+    }
+    let mut g = self.inner.lock().unwrap();
+    if g.res.abort.is_some() || g.finished {
+      drop(g);
+      std::thread::yield_now();
+      return;
+    }
+    g.res.lock_contention += 1;
+    g.res.events.push(format!("{me} blocked-on {kind}"));
+    g.threads[me].st = St::BlockedRetry;
+    self.pass_baton(&mut g, me, true);
+    let _g = self.wait_for_baton(g, me);
+  }
+}
+
 fn norm(p: &str) -> &str {
   p.strip_prefix("./").unwrap_or(p)
 }
@@ -385,6 +426,9 @@ impl SimHooks for Sched {
       return;
     }
     g.res.steps += 1;
+    if target.is_empty() && (kind.starts_with("atomic") || kind.contains("lock") || kind.starts_with("once") || kind.starts_with("try_")) {
+      g.res.sync_yields += 1;
+    }
     Self::settle_send(&mut g, me);
     if kind == "send" {
       g.threads[me].pending_send = true;
